@@ -28,6 +28,8 @@ def _meta(m):
     """Copy of a returned metadata mapping; the returned object itself is then scribbled on
     (callers own what the API hands them: nothing they do to it may reach later results)."""
     out = dict(m) if m else {}
+    if isinstance(out.get('confidenceScore'), float):
+        out['confidenceScore'] = repr(out['confidenceScore'])    # the same value as text
     if isinstance(m, dict):
         m.clear()
         m['scribbled-by-caller'] = True
@@ -146,7 +148,17 @@ def observer(path):
 
 def _cell(v):
     if isinstance(v, bytes):
-        return 'b:' + v.decode('utf-8', 'replace')
+        t = v.decode('utf-8', 'replace')
+        if '"confidenceScore": ' in t and t.startswith('{'):
+            # a score given as a float and the same score given as text are one value
+            try:
+                d = json.loads(t)
+                if isinstance(d.get('confidenceScore'), float):
+                    d['confidenceScore'] = repr(d['confidenceScore'])
+                    t = json.dumps(d)
+            except ValueError:
+                pass
+        return 'b:' + t
     return v
 
 
